@@ -24,7 +24,7 @@ func init() {
 		Doc: "faithful tokens: the position given to an emit is the position at the start of the iteration; the text is usage[start:pos] (or a suffix of it) or a constant; one-byte tokens carry the character that selected the case", Run: lex4})
 	register(&Rule{ID: "LEX-5", Props: []string{"C03", "C08"}, Floor: 3,
 		Doc: "error positions: every ParseError takes Pos from the scanner position, a token's Pos or len(spec), and Input from the string those positions refer to", Run: lex5})
-	register(&Rule{ID: "LEX-6", Props: []string{"C08"}, Floor: 1,
+	register(&Rule{ID: "LEX-6", Props: []string{"C08", "C18"}, Floor: 1,
 		Doc: "the set of token kinds the scanner emits equals the set declared", Run: lex6})
 }
 
@@ -322,6 +322,124 @@ func (m *lexModel) advancedSince(from, to ssa.Instruction) bool {
 		}
 	}
 	return !m.g.reach(m.g.succ[fb], blocked, nil)[tb]
+}
+
+// advancesThrough: over all ways from the main loop header through call `at` back to the header, the
+// minimum and maximum number of stores to pos (each is +1 by LEX-1); unbounded if a cycle with a store
+// lies on such a way.
+func (m *lexModel) advancesThrough(main *ssa.BasicBlock, at *ssa.Call) (lo, hi int64, unbounded bool) {
+	count := func(b *ssa.BasicBlock, from, to int) int64 {
+		var n int64
+		for i := from; i < to && i < len(b.Instrs); i++ {
+			if st, ok := b.Instrs[i].(*ssa.Store); ok && st.Addr == ssa.Value(m.pos) {
+				n++
+			}
+		}
+		return n
+	}
+	ab := at.Block()
+	ai := ir.IndexIn(at)
+	type res struct {
+		lo, hi int64
+		ok     bool
+	}
+	budget := 20000
+	var walk func(b, target *ssa.BasicBlock, acc int64, onPath map[*ssa.BasicBlock]bool, out *res)
+	walk = func(b, target *ssa.BasicBlock, acc int64, onPath map[*ssa.BasicBlock]bool, out *res) {
+		budget--
+		if budget < 0 {
+			unbounded = true
+			return
+		}
+		if b == target {
+			if !out.ok || acc < out.lo {
+				out.lo = acc
+			}
+			if !out.ok || acc > out.hi {
+				out.hi = acc
+			}
+			out.ok = true
+			return
+		}
+		if onPath[b] {
+			// an inner cycle: unbounded if it contains a store
+			if m.kill(b) {
+				unbounded = true
+			}
+			return
+		}
+		if b == main {
+			return
+		}
+		onPath[b] = true
+		n := acc + count(b, 0, len(b.Instrs))
+		for _, sc := range m.g.succ[b] {
+			walk(sc, target, n, onPath, out)
+		}
+		delete(onPath, b)
+	}
+	var before, after res
+	for _, sc := range m.g.succ[main] {
+		walk(sc, ab, 0, map[*ssa.BasicBlock]bool{}, &before)
+	}
+	if !before.ok {
+		return 0, 0, true
+	}
+	pre := count(ab, 0, ai)
+	post := count(ab, ai, len(ab.Instrs))
+	// from the emit block onwards, back to the header (returns do not count: the scan ends there)
+	onPath := map[*ssa.BasicBlock]bool{ab: true}
+	for _, sc := range m.g.succ[ab] {
+		if sc == main {
+			if !after.ok || 0 < after.lo {
+				after.lo = 0
+			}
+			after.ok = true
+			if after.hi < 0 {
+				after.hi = 0
+			}
+			continue
+		}
+		walk2 := func() {
+			var w func(b *ssa.BasicBlock, acc int64)
+			w = func(b *ssa.BasicBlock, acc int64) {
+				budget--
+				if budget < 0 {
+					unbounded = true
+					return
+				}
+				if b == main {
+					if !after.ok || acc < after.lo {
+						after.lo = acc
+					}
+					if !after.ok || acc > after.hi {
+						after.hi = acc
+					}
+					after.ok = true
+					return
+				}
+				if onPath[b] {
+					if m.kill(b) {
+						unbounded = true
+					}
+					return
+				}
+				onPath[b] = true
+				n := acc + count(b, 0, len(b.Instrs))
+				for _, s2 := range m.g.succ[b] {
+					w(s2, n)
+				}
+				delete(onPath, b)
+			}
+			w(sc, 0)
+		}
+		walk2()
+	}
+	if !after.ok {
+		// the iteration always ends the scan after this emit: nothing more to count
+		return before.lo + pre + post, before.hi + pre + post, unbounded
+	}
+	return before.lo + pre + post + after.lo, before.hi + pre + post + after.hi, unbounded
 }
 
 // noStoreBetween: a dominates b and no store to pos can execute between them.
@@ -1107,6 +1225,18 @@ func lex4(c *Ctx) {
 				problems = append(problems, "the token text is not the input between the token's position and the current position")
 			}
 		}
+		if s, isC := ir.ConstString(text); isC && len(s) >= 1 {
+			// a constant text stands for exactly len(text) bytes of the input: every way round the main loop
+			// through this emit advances the position exactly that many times
+			lo, hi, unbounded := m.advancesThrough(main, cv)
+			if unbounded || lo != int64(len(s)) || hi != int64(len(s)) {
+				got := fmt.Sprintf("%d..%d", lo, hi)
+				if unbounded {
+					got = fmt.Sprintf("%d or more", lo)
+				}
+				problems = append(problems, fmt.Sprintf("the constant text %q stands for %d byte(s) but the iteration consumes %s", s, len(s), got))
+			}
+		}
 		reportP(c, key, cv.Pos(), problems, "position = start of the iteration; text = the input from there to the current position (or the selecting character)")
 		// short option names are delimited: a '-' glued to the name (`-a-b`) is a syntax error, i.e. the
 		// scan goes on after this emit only past a test that the next byte is not '-' (or there is none)
@@ -1354,7 +1484,60 @@ func lex6(c *Ctx) {
 		}
 	}
 	declared := declaredKinds(c)
+	mk := len(c.Obs)
 	c.Check(sameSet(emitted, declared) && len(declared) > 0, "kinds(scanner)=kinds(declared)", m.fn.Pos(),
 		fmt.Sprintf("the scanner emits exactly the %d declared kinds", len(declared)),
 		fmt.Sprintf("declared {%s}, emitted {%s}", setStr(declared), setStr(emitted)))
+	c.Scope(mk, "C08")
+	// the byte classes the scanner is built on are plain ASCII range tests: nothing outside ASCII is a
+	// letter or a digit (argument names, option names)
+	isBytePred := func(f *ssa.Function) bool {
+		if f == nil || f.Signature.Recv() != nil || len(f.Params) == 0 || len(f.Blocks) == 0 || f.Signature.Results().Len() != 1 {
+			return false
+		}
+		if b, ok := f.Signature.Results().At(0).Type().Underlying().(*types.Basic); !ok || b.Kind() != types.Bool {
+			return false
+		}
+		b, ok := f.Params[0].Type().Underlying().(*types.Basic)
+		return ok && (b.Kind() == types.Uint8 || b.Kind() == types.Int32)
+	}
+	for _, f := range c.pkgFuncsDeep("internal/lexer") {
+		if !isBytePred(f) || f.Parent() != nil {
+			continue
+		}
+		c.Mark(f)
+		bad := ""
+		ir.Instrs(f, func(in ssa.Instruction) {
+			switch x := in.(type) {
+			case *ssa.BinOp:
+				switch x.Op {
+				case token.EQL, token.NEQ, token.LSS, token.LEQ, token.GTR, token.GEQ:
+					_, cx := x.X.(*ssa.Const)
+					_, cy := x.Y.(*ssa.Const)
+					px := x.X == ssa.Value(f.Params[0])
+					py := x.Y == ssa.Value(f.Params[0])
+					if !((px && cy) || (py && cx)) {
+						bad = "a comparison of something other than the byte with a constant"
+					}
+				default:
+					bad = "arithmetic on the byte"
+				}
+			case *ssa.UnOp:
+				if x.Op != token.NOT {
+					bad = "an operation other than a comparison"
+				}
+			case *ssa.Call:
+				if g := ir.Static(x); g == nil || !isBytePred(g) || g.Pkg != f.Pkg || len(x.Call.Args) == 0 || x.Call.Args[0] != ssa.Value(f.Params[0]) {
+					bad = "a call of something other than another byte class of the scanner on the same byte"
+				}
+			case *ssa.Phi, *ssa.If, *ssa.Jump, *ssa.Return, *ssa.DebugRef:
+			default:
+				bad = fmt.Sprintf("an instruction that is not a comparison (%T)", in)
+			}
+		})
+		mk2 := len(c.Obs)
+		c.Check(bad == "", Q(f)+":ascii-ranges", f.Pos(), "a byte class defined only by comparisons of the byte with constants",
+			"the byte class is not a plain comparison of the byte with constants ("+bad+"): bytes outside ASCII could count as letters or digits")
+		c.Scope(mk2, "C08", "C18")
+	}
 }
